@@ -1,8 +1,6 @@
 package sim
 
 func oracleC02(r *Result) {}
-func oracleC03(r *Result) {}
-func oracleC04(r *Result) {}
 func oracleC05(r *Result) {}
 func oracleC06(r *Result) {}
 func oracleC07(r *Result) {}
